@@ -61,7 +61,8 @@ impl<T: Clone + TTOverwriteable> TranspositionTable<T> {
     }
 
     pub fn new_generation(&mut self) {
-        self.generation += 1;
+        // Entry ages are only compared for (in)equality, so wrapping around is harmless.
+        self.generation = self.generation.wrapping_add(1);
     }
 
     #[expect(
